@@ -384,6 +384,10 @@ def dot_fix_matches_nullglob(impl_plain, impl_null, bash):
     return hit and not rest and fixed == bash
 
 
+# C05-4 `leading_empty_quoted_piece_hides_dotfiles` was repaired in /repo (a135ffb) and the model flipped
+# (Model/Expand.lean firstStartsWithDot, Props/C05.lean empty_quoted_piece_transparent_to_globbing). The two detectors
+# below stay as a tripwire: the entry is `fixed` in known_findings.json, a fixed entry suppresses nothing, so the
+# behaviour coming back is reported as a VIOLATION carrying the clause name.
 def dot_fix_matches(lst, bash):
     """`lst` has unmatched patterns starting with '.' where bash has the dot-files they match (an empty quoted or
     empty-valued piece precedes the dot): replacing some of them by their matches gives bash's list"""
